@@ -114,7 +114,11 @@ void handOver(TaskRt *me, int next, uint32_t guard) {
     }
 }
 
-void point(uint32_t guard, bool isAlloc) {
+// steps (within the current solo measurement) at which the library returned from a non-re-entrant libc
+// facility: the preemption sweep places preemptions exactly there
+std::vector<int64_t> g_soloPreferred;
+
+void point(uint32_t guard, bool isAlloc, bool preferred = false) {
     TaskRt *t = tl_rt;
     if (!t) return;
     t->opSteps++;
@@ -125,6 +129,7 @@ void point(uint32_t guard, bool isAlloc) {
     if (guard) t->lastGuard = guard;
     if (!g.active) {
         g.soloSteps++;
+        if (preferred && g_soloPreferred.size() < 256) g_soloPreferred.push_back(g.soloSteps);
         return;
     }
     g.step++;
@@ -147,6 +152,9 @@ void point(uint32_t guard, bool isAlloc) {
             next = highestPrio();
         }
     } else {
+        // right after a call into a non-re-entrant libc facility the window in which another task can
+        // disturb its hidden state is open: switch there half of the time, whatever the quantum says
+        if (preferred && g.rng.chance(0.5)) g.countdown = 0;
         if (--g.countdown <= 0) {
             g.countdown = drawQuantum();
             if (g.stats.switches < g.cfg.maxSwitches) next = choose();
@@ -154,6 +162,7 @@ void point(uint32_t guard, bool isAlloc) {
     }
     if (next >= 0 && next != t->id && runnable(next)) handOver(t, next, guard);
 }
+void preferredPoint() { point(0x7ffffff0u, false, true); }
 
 void *threadMain(void *vp) {
     TaskRt *t = (TaskRt *)vp;
@@ -258,6 +267,7 @@ void __sanitizer_cov_trace_pc(void) {
 SchedStats schedRun(int nTasks, const SchedConfig &cfg, const TaskBody &body) {
     heapSchedHook = allocHook;
     ambientYieldHook = yieldBlocked;
+    ambientPreferHook = preferredPoint;
     g.cfg = cfg;
     g.rng.reseed(cfg.seed);
     g.tasks.clear();
@@ -323,12 +333,15 @@ SchedStats schedRun(int nTasks, const SchedConfig &cfg, const TaskBody &body) {
 
 void schedSoloBegin() {
     heapSchedHook = allocHook;
+    ambientPreferHook = preferredPoint;
     g_soloTask.id = -1;
     g_soloTask.opSteps = 0;
     g_soloTask.opBudget = 0;
     tl_rt = &g_soloTask;
     g.soloSteps = 0;
+    g_soloPreferred.clear();
 }
+std::vector<int64_t> schedSoloPreferredSteps() { return g_soloPreferred; }
 int64_t schedSoloEnd() {
     tl_rt = nullptr;
     return g.soloSteps;
